@@ -36,8 +36,10 @@ import (
 const c06LockShrinksPerKind = 8
 
 const (
-	c06IPA = "10.0.0.1"
-	c06IPB = "10.0.0.2"
+	c06IPA  = "10.0.0.1"
+	c06IPB  = "10.0.0.2"
+	c06IP6A = "[2001:db8:0:2::a]"
+	c06IP6B = "[2001:db8:0:2::600d]"
 )
 
 type c06Event struct {
@@ -68,6 +70,13 @@ var c06Alphabet = []c06Event{
 	// capped and the uncapped deadline
 	{Name: "9xbad(A)-every-9m", Kind: "req", From: c06IPA, Cred: "bad", Times: 9, Gap: 9 * time.Minute},
 	{Name: "adv(15m30s)", Kind: "adv", Adv: 15*time.Minute + 30*time.Second},
+	// two IPv6 clients whose addresses share their leading groups (the peer address has the form [addr]:port; an
+	// identity cut out of it at the wrong colon makes them one client)
+	{Name: "bad(A6)", Kind: "req", From: c06IP6A, Cred: "bad", Times: 1},
+	{Name: "good(A6)", Kind: "req", From: c06IP6A, Cred: "good", Times: 1},
+	{Name: "4xbad(A6)", Kind: "req", From: c06IP6A, Cred: "bad", Times: 4},
+	{Name: "good(B6)", Kind: "req", From: c06IP6B, Cred: "good", Times: 1},
+	{Name: "bad(B6)", Kind: "req", From: c06IP6B, Cred: "bad", Times: 1},
 }
 
 // the explorations: sub-alphabets (by event name) and depth per tier
@@ -82,6 +91,7 @@ var c06Explorations = []c06Exploration{
 	{"main", []string{"bad(A)", "good(A)", "missing(A)", "good(B)", "bad(A,xff=B)", "4xbad(A)", "adv(30s)", "adv(1m)", "adv(2m)", "adv(16m)"}, 6, 7, 2},
 	{"core", []string{"bad(A)", "good(A)", "good(B)", "4xbad(A)", "adv(30s)", "adv(1m)", "adv(2m)", "adv(16m)"}, 0, 8, 3},
 	{"cap", []string{"9xbad(A)-every-9m", "bad(A)", "good(A)", "good(B)", "adv(1m)", "adv(15m30s)"}, 4, 5, 1},
+	{"ipv6", []string{"bad(A6)", "good(A6)", "4xbad(A6)", "good(B6)", "bad(B6)", "good(B)", "adv(1m)", "adv(2m)"}, 5, 6, 1},
 }
 
 func c06EventByName(n string) (int, c06Event) {
